@@ -158,8 +158,11 @@ func (a *FuncAn) untrackedAtom(at *Atom) (string, bool) {
 					exact = false
 				}
 			}
-			if !exact && a.E.CountSummaryOf(callee) != nil {
-				exact = true // a counting function: related to the counted object by the paired-count lemma
+			if !exact && a.E.CountSummaryOf(callee) != nil && callee.Pkg == a.Fn.Pkg {
+				// a counting function: related to the counted object by the paired-count lemma, which pairs a count with
+				// the methods of the same package that measure the same object; a generic counting helper of another
+				// package (internal/wire.CountBits4) is only a name here
+				exact = true
 			}
 			if !exact {
 				return "the value returned by " + FuncShort(callee) + ", which no summary describes", true
